@@ -1,8 +1,8 @@
 (* C03, K2 at full strength: Literal._quote_encode (three-quote form, strings that may contain quote characters)
    read back by SinkParser.strconst.  Proof device: the pipeline
        replace backslash; replace triple quotes; patch a trailing quote; replace CR
-   is shown equal to ONE structural pass [Fg] over the source string that looks two characters ahead and remembers
-   the previous source character; the reader is then shown to invert that pass. *)
+   (in the order of the repaired code: backslash, trailing quote, triple quotes, CR) is shown equal to ONE structural
+   pass [Fq] over the source string that looks three characters ahead; the reader is then shown to invert that pass. *)
 From Coq Require Import List NArith Bool Lia Wf_nat.
 From RV Require Import Codec.Model Codec.Proofs.
 Import ListNotations.
@@ -15,36 +15,36 @@ Definition ee (x : N) : str := if x =? 92 then [92; 92] else if x =? 13 then [92
 Definition starts2 (s : str) : bool :=
   match s with x :: y :: _ => (x =? 34) && (y =? 34) | _ => false end.
 
-(* replace-backslash followed by replace-triple-quotes, as one pass *)
-Fixpoint G (s : str) : str :=
-  match s with
-  | [] => []
-  | a :: t =>
-    if a =? 34 then
-      match t with
-      | b :: c :: r => if (b =? 34) && (c =? 34) then ESC3 ++ G r else 34 :: G t
-      | _ => 34 :: G t
-      end
-    else dd a ++ G t
-  end.
 
-(* the whole body, as one pass; prev = previous source character *)
-Definition last_q (prev : option N) : str :=
-  match prev with Some p => if p =? 92 then [34] else [92; 34] | None => [34] end.
-Fixpoint Fg (enc : N -> str) (prev : option N) (s : str) : str :=
+(* the whole body as one pass: a quote is written raw unless it is the last character (always escaped) or the first
+   of three quotes none of which is the last character (the three are escaped together) *)
+Definition triple3 (t : str) : bool :=
+  match t with b :: c :: _ :: _ => (b =? 34) && (c =? 34) | _ => false end.
+Fixpoint Fq (enc : N -> str) (s : str) : str :=
   match s with
   | [] => []
   | a :: t =>
     if a =? 34 then
       match t with
-      | [] => last_q prev
+      | [] => [92; 34]
       | b :: t' =>
         match t' with
-        | c :: r => if (b =? 34) && (c =? 34) then ESC3 ++ Fg enc (Some 34) r else 34 :: Fg enc (Some 34) t
-        | [] => 34 :: Fg enc (Some 34) t
+        | c :: r =>
+          match r with
+          | _ :: _ => if (b =? 34) && (c =? 34) then ESC3 ++ Fq enc r else 34 :: Fq enc t
+          | [] => 34 :: Fq enc t
+          end
+        | [] => 34 :: Fq enc t
         end
       end
-    else enc a ++ Fg enc (Some a) t
+    else enc a ++ Fq enc t
+  end.
+
+(* the string after the backslash replace and the trailing-quote patch *)
+Fixpoint H (s : str) : str :=
+  match s with
+  | [] => []
+  | a :: t => match t with [] => if a =? 34 then [92; 34] else dd a | _ :: _ => dd a ++ H t end
   end.
 
 (* ------------------------------------------------------------ equations *)
@@ -57,49 +57,17 @@ Qed.
 Lemma starts2_head : forall c q, (c =? 34) = false -> starts2 (c :: q) = false.
 Proof. intros c [|y q] H; cbn [starts2]; [reflexivity|]. now rewrite H. Qed.
 
-Lemma G_unfold3 : forall a b c r,
-  G (a :: b :: c :: r) = if a =? 34 then (if (b =? 34) && (c =? 34) then ESC3 ++ G r else 34 :: G (b :: c :: r))
-                         else dd a ++ G (b :: c :: r).
-Proof. reflexivity. Qed.
-Lemma G_nq : forall a t, (a =? 34) = false -> G (a :: t) = dd a ++ G t.
-Proof. intros a [|b [|c r]] H; try rewrite G_unfold3; cbn [G]; now rewrite H. Qed.
-Lemma G_q3 : forall r, G (34 :: 34 :: 34 :: r) = ESC3 ++ G r.
-Proof. reflexivity. Qed.
-Lemma G_q : forall t, starts2 t = false -> G (34 :: t) = 34 :: G t.
-Proof. intros [|b [|c r]] H; try reflexivity. rewrite G_unfold3. simpl in H. rewrite N.eqb_refl, H. reflexivity. Qed.
-
-Lemma Fg_unfold3 : forall enc p a b c r,
-  Fg enc p (a :: b :: c :: r) =
-  if a =? 34 then (if (b =? 34) && (c =? 34) then ESC3 ++ Fg enc (Some 34) r else 34 :: Fg enc (Some 34) (b :: c :: r))
-  else enc a ++ Fg enc (Some a) (b :: c :: r).
-Proof. reflexivity. Qed.
-Lemma Fg_unfold2 : forall enc p a b,
-  Fg enc p [a; b] = if a =? 34 then 34 :: Fg enc (Some 34) [b] else enc a ++ Fg enc (Some a) [b].
-Proof. reflexivity. Qed.
-Lemma Fg_unfold1 : forall enc p a, Fg enc p [a] = if a =? 34 then last_q p else enc a ++ [].
-Proof. reflexivity. Qed.
-Lemma Fg_nq : forall enc p a t, (a =? 34) = false -> Fg enc p (a :: t) = enc a ++ Fg enc (Some a) t.
-Proof.
-  intros enc p a [|b [|c r]] H; [rewrite Fg_unfold1|rewrite Fg_unfold2|rewrite Fg_unfold3]; now rewrite H.
-Qed.
-Lemma Fg_q3 : forall enc p r, Fg enc p (34 :: 34 :: 34 :: r) = ESC3 ++ Fg enc (Some 34) r.
-Proof. reflexivity. Qed.
-Lemma Fg_qlast : forall enc p, Fg enc p [34] = last_q p.
-Proof. reflexivity. Qed.
-Lemma Fg_q : forall enc p t, t <> [] -> starts2 t = false -> Fg enc p (34 :: t) = 34 :: Fg enc (Some 34) t.
-Proof.
-  intros enc p [|b [|c r]] Hne H; [congruence|reflexivity|].
-  rewrite Fg_unfold3. simpl in H. rewrite N.eqb_refl, H. reflexivity.
-Qed.
-
 Lemma rep3_unfold3 : forall a b c r,
   rep3 (a :: b :: c :: r) = if (a =? 34) && (b =? 34) && (c =? 34) then [92; 34; 92; 34; 92; 34] ++ rep3 r
                             else a :: rep3 (b :: c :: r).
 Proof. reflexivity. Qed.
+
 Lemma rep3_nq : forall a t, (a =? 34) = false -> rep3 (a :: t) = a :: rep3 t.
 Proof. intros a [|b [|c r]] H; try reflexivity. rewrite rep3_unfold3. now rewrite H. Qed.
+
 Lemma rep3_q3 : forall r, rep3 (34 :: 34 :: 34 :: r) = ESC3 ++ rep3 r.
 Proof. reflexivity. Qed.
+
 Lemma rep3_q : forall t, starts2 t = false -> rep3 (34 :: t) = 34 :: rep3 t.
 Proof.
   intros [|b [|c r]] H; try reflexivity. rewrite rep3_unfold3. simpl in H. rewrite N.eqb_refl. cbn [andb].
@@ -109,13 +77,13 @@ Qed.
 Lemma contains3_unfold3 : forall a b c r,
   contains3 (a :: b :: c :: r) = ((a =? 34) && (b =? 34) && (c =? 34)) || contains3 (b :: c :: r).
 Proof. reflexivity. Qed.
+
 Lemma contains3_cons : forall a t, contains3 (a :: t) = ((a =? 34) && starts2 t) || contains3 t.
 Proof.
   intros a [|b [|c r]]; [cbn; now rewrite andb_false_r|cbn; now rewrite andb_false_r|].
   rewrite contains3_unfold3. cbn [starts2]. now rewrite andb_assoc.
 Qed.
 
-(* strong induction on the length *)
 Lemma str_ind3 : forall P : str -> Prop,
   (forall s, (forall u, (length u < length s)%nat -> P u) -> P s) -> forall s, P s.
 Proof.
@@ -123,29 +91,77 @@ Proof.
   induction n as [n IH] using lt_wf_ind. intros s E. apply H. intros u Hu. apply (IH (length u)); [lia|reflexivity].
 Qed.
 
-(* ------------------------------------------------------------ claim 1a: the first two replaces are G *)
+
+Lemma Fq_nq : forall enc a t, (a =? 34) = false -> Fq enc (a :: t) = enc a ++ Fq enc t.
+Proof. intros enc a t H. cbn [Fq]. now rewrite H. Qed.
+Lemma Fq_qlast : forall enc, Fq enc [34] = [92; 34].
+Proof. reflexivity. Qed.
+Lemma Fq_q3 : forall enc x r, Fq enc (34 :: 34 :: 34 :: x :: r) = ESC3 ++ Fq enc (x :: r).
+Proof. reflexivity. Qed.
+Lemma Fq_unfold4 : forall enc b c x r,
+  Fq enc (34 :: b :: c :: x :: r) =
+  if (b =? 34) && (c =? 34) then ESC3 ++ Fq enc (x :: r) else 34 :: Fq enc (b :: c :: x :: r).
+Proof. reflexivity. Qed.
+Lemma Fq_q : forall enc t, t <> [] -> triple3 t = false -> Fq enc (34 :: t) = 34 :: Fq enc t.
+Proof.
+  intros enc [|b [|c [|x r]]] Hne H; [congruence|reflexivity|reflexivity|].
+  rewrite Fq_unfold4. simpl in H. now rewrite H.
+Qed.
+Lemma triple3_true : forall t, triple3 t = true -> exists x r, t = 34 :: 34 :: x :: r.
+Proof.
+  intros [|b [|c [|x r]]] H; try discriminate. simpl in H. apply andb_true_iff in H as [H1 H2].
+  apply N.eqb_eq in H1, H2. subst. now exists x, r.
+Qed.
+
+Lemma H_cons : forall a b t, H (a :: b :: t) = dd a ++ H (b :: t).
+Proof. reflexivity. Qed.
+Lemma H_single : forall a, H [a] = if a =? 34 then [92; 34] else dd a.
+Proof. reflexivity. Qed.
+
+(* ------------------------------------------------------------ stage 1+2: backslash replace, trailing quote *)
 Definition DD (s : str) : str := replace1 92 [92; 92] s.
 
 Lemma DD_cons : forall a t, DD (a :: t) = dd a ++ DD t.
 Proof. intros. unfold DD. rewrite replace1_cons. reflexivity. Qed.
 
 Lemma dd_head : forall a, (a =? 34) = false -> exists c q, dd a = c :: q /\ (c =? 34) = false.
+Proof. intros a H. unfold dd. destruct (a =? 92); eauto. Qed.
+
+Lemma dd_nonempty : forall a, dd a <> [].
+Proof. intros a. unfold dd. destruct (a =? 92); discriminate. Qed.
+
+Lemma patch_last_app : forall P X, X <> [] -> patch_last (P ++ X) = P ++ patch_last X.
 Proof.
-  intros a H. unfold dd. destruct (a =? 92); eauto.
+  intros P X HX. unfold patch_last. rewrite rev_app_distr.
+  destruct (rev X) as [|l q] eqn:E.
+  - exfalso. apply HX. rewrite <- (rev_involutive X), E. reflexivity.
+  - cbn [app]. destruct (l =? 34); [|reflexivity]. rewrite removelast_app by exact HX. now rewrite <- app_assoc.
 Qed.
 
-Lemma starts2_DD : forall t, starts2 (DD t) = starts2 t.
+Lemma DD_nonempty : forall b t, DD (b :: t) <> [].
+Proof. intros b t. rewrite DD_cons. intros E. apply app_eq_nil in E as [E _]. now apply dd_nonempty in E. Qed.
+
+Lemma patch_DD : forall s, patch_last (DD s) = H s.
 Proof.
-  intros [|b t]; [reflexivity|]. rewrite DD_cons.
-  destruct (b =? 34) eqn:Hb.
-  - apply N.eqb_eq in Hb. subst b. cbn [dd N.eqb app]. change (dd 34) with [34]. cbn [app].
-    destruct t as [|c r]; [reflexivity|]. rewrite DD_cons.
-    destruct (c =? 34) eqn:Hc.
-    + apply N.eqb_eq in Hc. subst c. reflexivity.
-    + destruct (dd_head c Hc) as (x & q & -> & Hx). cbn [app starts2]. rewrite Hx, Hc. reflexivity.
-  - destruct (dd_head b Hb) as (x & q & -> & Hx). cbn [app].
-    rewrite (starts2_head x _ Hx). symmetry. now apply starts2_head.
+  induction s as [|a t IH]; [reflexivity|]. destruct t as [|b t'].
+  - rewrite H_single. cbn. unfold dd. destruct (N.eqb_spec a 34) as [->|N34]; [reflexivity|].
+    apply N.eqb_neq in N34. destruct (a =? 92) eqn:E92; cbn; [reflexivity|]. now rewrite N34.
+  - rewrite DD_cons, H_cons, patch_last_app by (apply DD_nonempty). now rewrite IH.
 Qed.
+
+(* ------------------------------------------------------------ stage 3: the triple quotes *)
+Lemma rep3_id : forall X, contains3 X = false -> rep3 X = X.
+Proof.
+  intros X. pattern X. apply str_ind3. clear X. intros X IH Hc. destruct X as [|a t]; [reflexivity|].
+  rewrite contains3_cons in Hc. apply orb_false_iff in Hc as [H1 H2].
+  destruct (a =? 34) eqn:Ha.
+  - apply N.eqb_eq in Ha. subst a. simpl in H1. rewrite rep3_q by exact H1.
+    rewrite IH by (try exact H2; cbn [length]; lia). reflexivity.
+  - rewrite rep3_nq by exact Ha. rewrite IH by (try exact H2; cbn [length]; lia). reflexivity.
+Qed.
+
+Lemma stage3_is_rep3 : forall X, (if contains3 X then rep3 X else X) = rep3 X.
+Proof. intros X. destruct (contains3 X) eqn:E; [reflexivity|]. symmetry. now apply rep3_id. Qed.
 
 Lemma rep3_dd : forall a X, (a =? 34) = false -> rep3 (dd a ++ X) = dd a ++ rep3 X.
 Proof.
@@ -154,100 +170,44 @@ Proof.
   - cbn [app]. now rewrite rep3_nq.
 Qed.
 
-Lemma rep3_DD : forall s, rep3 (DD s) = G s.
+Lemma H_head_nq : forall b t, (b =? 34) = false -> exists c q, H (b :: t) = c :: q /\ (c =? 34) = false.
 Proof.
-  induction s as [s IH] using str_ind3. destruct s as [|a t]; [reflexivity|].
-  rewrite DD_cons. destruct (a =? 34) eqn:Ha.
-  - apply N.eqb_eq in Ha. subst a. change (dd 34) with [34]. cbn [app].
-    destruct (starts2 t) eqn:Hs.
-    + destruct (starts2_true t Hs) as (r & ->). rewrite !DD_cons. change (dd 34) with [34]. cbn [app].
-      rewrite rep3_q3, G_q3, IH by (cbn [length]; lia). reflexivity.
-    + rewrite rep3_q by (now rewrite starts2_DD). rewrite G_q by exact Hs. rewrite IH by (cbn [length]; lia).
-      reflexivity.
-  - rewrite rep3_dd by exact Ha. rewrite G_nq by exact Ha. rewrite IH by (cbn [length]; lia). reflexivity.
+  intros b t Hb. destruct (dd_head b Hb) as (c & q & Hd & Hc). destruct t as [|x t'].
+  - rewrite H_single, Hb, Hd. eauto.
+  - rewrite H_cons, Hd. cbn [app]. eauto.
 Qed.
 
-Lemma G_no_triple : forall s, contains3 s = false -> G s = DD s.
+(* after a quote that is written raw, the patched string never continues with two quotes *)
+Lemma H_after_raw : forall t, t <> [] -> triple3 t = false -> starts2 (H t) = false.
 Proof.
-  induction s as [s IH] using str_ind3. intros H. destruct s as [|a t]; [reflexivity|].
-  rewrite contains3_cons in H. apply orb_false_iff in H as [H1 H2].
-  rewrite DD_cons. destruct (a =? 34) eqn:Ha.
-  - apply N.eqb_eq in Ha. subst a. simpl in H1. rewrite G_q by exact H1.
-    rewrite IH by (cbn [length]; try lia; exact H2). reflexivity.
-  - rewrite G_nq by exact Ha. rewrite IH by (cbn [length]; try lia; exact H2). reflexivity.
+  intros [|b t'] Hne Ht; [congruence|].
+  destruct (b =? 34) eqn:Hb.
+  - apply N.eqb_eq in Hb. subst b. destruct t' as [|c r]; [reflexivity|].
+    rewrite H_cons. change (dd 34) with [34]. cbn [app].
+    destruct (c =? 34) eqn:Hc.
+    + apply N.eqb_eq in Hc. subst c. destruct r as [|x r']; [reflexivity|]. simpl in Ht. discriminate.
+    + destruct (H_head_nq c r Hc) as (x & q & -> & Hx). cbn [starts2]. now rewrite Hx, andb_false_r.
+  - destruct (H_head_nq b t' Hb) as (x & q & -> & Hx). now apply starts2_head.
 Qed.
 
-Lemma stage2_is_G : forall s, (if contains3 s then rep3 (DD s) else DD s) = G s.
+Lemma rep3_H : forall s, rep3 (H s) = Fq dd s.
 Proof.
-  intros s. destruct (contains3 s) eqn:E; [apply rep3_DD|]. symmetry. now apply G_no_triple.
-Qed.
-
-(* ------------------------------------------------------------ claim 1b: the trailing-quote patch *)
-Lemma patch_last_two : forall Y p, patch_last (Y ++ [p; 34]) = if p =? 92 then Y ++ [p; 34] else Y ++ [p; 92; 34].
-Proof.
-  intros Y p. unfold patch_last. rewrite rev_app_distr. cbn [rev app]. rewrite N.eqb_refl. cbn [andb].
-  destruct (p =? 92); cbn [negb]; [reflexivity|].
-  replace (Y ++ [p; 34]) with ((Y ++ [p]) ++ [34]) by (rewrite <- app_assoc; reflexivity).
-  rewrite removelast_last, <- app_assoc. reflexivity.
-Qed.
-
-Lemma patch_last_other : forall Y l, (l =? 34) = false -> patch_last (Y ++ [l]) = Y ++ [l].
-Proof.
-  intros Y l H. unfold patch_last. rewrite rev_app_distr. cbn [rev app].
-  destruct (rev Y); [reflexivity|]. now rewrite H.
-Qed.
-
-Lemma patch_last_single : forall x, patch_last [x] = [x].
-Proof. reflexivity. Qed.
-
-(* P is what has been emitted so far, prev its last character (= the previous source character) *)
-Definition last_is (P : str) (prev : option N) : Prop :=
-  match prev with None => P = [] | Some p => exists P', P = P' ++ [p] end.
-
-Lemma dd_last : forall a, exists Q, dd a = Q ++ [a].
-Proof. intros a. unfold dd. destruct (N.eqb_spec a 92) as [->|]; [now exists [92]|now exists []]. Qed.
-
-Lemma patch_G : forall s P prev, s <> [] -> last_is P prev ->
-  patch_last (P ++ G s) = P ++ Fg dd prev s.
-Proof.
-  intros s. pattern s. apply str_ind3. clear s. intros s IH P prev Hne HP. destruct s as [|a t]; [congruence|].
+  intros s. pattern s. apply str_ind3. clear s. intros s IH. destruct s as [|a t]; [reflexivity|].
   destruct (a =? 34) eqn:Ha.
-  - apply N.eqb_eq in Ha. subst a. destruct t as [|b t'].
-    + (* the last character is a raw quote *)
-      cbn [G]. rewrite Fg_qlast. destruct prev as [p|]; simpl in HP.
-      * destruct HP as (P' & ->). rewrite <- app_assoc. cbn [app]. rewrite patch_last_two. unfold last_q.
-        destruct (p =? 92); rewrite <- app_assoc; reflexivity.
-      * subst P. reflexivity.
-    + destruct (starts2 (b :: t')) eqn:Hs.
-      * destruct (starts2_true _ Hs) as (r & Hr). rewrite Hr. rewrite G_q3, Fg_q3.
-        destruct r as [|x r'].
-        -- cbn [G Fg]. rewrite !app_nil_r. unfold ESC3.
-           replace (P ++ [92; 34; 92; 34; 92; 34]) with ((P ++ [92; 34; 92; 34]) ++ [92; 34])
-             by (rewrite <- app_assoc; reflexivity).
-           rewrite patch_last_two. reflexivity.
-        -- rewrite app_assoc. rewrite (IH (x :: r')) with (prev := Some 34).
-           ++ now rewrite <- app_assoc.
-           ++ rewrite Hr. cbn [length]. lia.
-           ++ discriminate.
-           ++ exists (P ++ [92; 34; 92; 34; 92]). rewrite <- app_assoc. reflexivity.
-      * rewrite G_q by exact Hs. rewrite Fg_q by (try exact Hs; discriminate).
-        change (P ++ 34 :: G (b :: t')) with (P ++ [34] ++ G (b :: t')). rewrite app_assoc.
-        rewrite (IH (b :: t')) with (prev := Some 34).
-        -- now rewrite <- app_assoc.
-        -- cbn [length]. lia.
-        -- discriminate.
-        -- now exists P.
-  - rewrite G_nq, Fg_nq by exact Ha. destruct t as [|b t'].
-    + cbn [G Fg]. rewrite !app_nil_r. destruct (dd_last a) as (Q & ->). rewrite app_assoc.
-      now rewrite patch_last_other.
-    + rewrite app_assoc. rewrite (IH (b :: t')) with (prev := Some a).
-      * now rewrite <- app_assoc.
-      * cbn [length]. lia.
-      * discriminate.
-      * destruct (dd_last a) as (Q & ->). exists (P ++ Q). now rewrite <- app_assoc.
+  - apply N.eqb_eq in Ha. subst a. destruct t as [|b t']; [reflexivity|].
+    destruct (triple3 (b :: t')) eqn:Ht.
+    + destruct (triple3_true _ Ht) as (x & r & Hr). rewrite Hr, Fq_q3.
+      rewrite !H_cons. change (dd 34) with [34]. cbn [app]. rewrite rep3_q3.
+      rewrite IH by (rewrite Hr; cbn [length]; lia). reflexivity.
+    + rewrite Fq_q by (try exact Ht; discriminate). rewrite H_cons. change (dd 34) with [34]. cbn [app].
+      rewrite rep3_q by (apply H_after_raw; [discriminate|exact Ht]).
+      rewrite IH by (cbn [length]; lia). reflexivity.
+  - rewrite Fq_nq by exact Ha. destruct t as [|b t'].
+    + rewrite H_single, Ha. cbn [Fq]. rewrite <- (app_nil_r (dd a)) at 1. rewrite rep3_dd by exact Ha. reflexivity.
+    + rewrite H_cons, rep3_dd by exact Ha. rewrite IH by (cbn [length]; lia). reflexivity.
 Qed.
 
-(* ------------------------------------------------------------ claim 1c: the CR replacement *)
+(* ------------------------------------------------------------ stage 4: the CR replacement *)
 Definition R13 (s : str) : str := replace1 13 [92; 114] s.
 
 Lemma R13_app : forall a b, R13 (a ++ b) = R13 a ++ R13 b.
@@ -259,43 +219,33 @@ Proof.
   unfold R13, replace1. cbn [flat_map app]. destruct (a =? 13); reflexivity.
 Qed.
 
-Lemma R13_Fg : forall s prev, R13 (Fg dd prev s) = Fg ee prev s.
+Lemma R13_Fq : forall s, R13 (Fq dd s) = Fq ee s.
 Proof.
-  intros s. pattern s. apply str_ind3. clear s. intros s IH prev. destruct s as [|a t]; [reflexivity|].
+  intros s. pattern s. apply str_ind3. clear s. intros s IH. destruct s as [|a t]; [reflexivity|].
   destruct (a =? 34) eqn:Ha.
-  - apply N.eqb_eq in Ha. subst a. destruct t as [|b t'].
-    + rewrite !Fg_qlast. unfold last_q. destruct prev as [p|]; [destruct (p =? 92)|]; reflexivity.
-    + destruct (starts2 (b :: t')) eqn:Hs.
-      * destruct (starts2_true _ Hs) as (r & Hr). rewrite Hr, !Fg_q3, R13_app.
-        rewrite IH by (rewrite Hr; cbn [length]; lia). reflexivity.
-      * rewrite !Fg_q by (try exact Hs; discriminate).
-        change (34 :: Fg dd (Some 34) (b :: t')) with ([34] ++ Fg dd (Some 34) (b :: t')).
-        rewrite R13_app, IH by (cbn [length]; lia). reflexivity.
-  - rewrite !Fg_nq by exact Ha. rewrite R13_app, R13_dd by exact Ha. rewrite IH by (cbn [length]; lia). reflexivity.
+  - apply N.eqb_eq in Ha. subst a. destruct t as [|b t']; [reflexivity|].
+    destruct (triple3 (b :: t')) eqn:Ht.
+    + destruct (triple3_true _ Ht) as (x & r & Hr). rewrite Hr, !Fq_q3, R13_app.
+      rewrite IH by (rewrite Hr; cbn [length]; lia). reflexivity.
+    + rewrite !Fq_q by (try exact Ht; discriminate).
+      change (34 :: Fq dd (b :: t')) with ([34] ++ Fq dd (b :: t')).
+      rewrite R13_app, IH by (cbn [length]; lia). reflexivity.
+  - rewrite !Fq_nq by exact Ha. rewrite R13_app, R13_dd by exact Ha. rewrite IH by (cbn [length]; lia). reflexivity.
 Qed.
 
 (* the body that Literal._quote_encode writes between the triple quotes is the one-pass function *)
-Theorem ttl_long_body_is_Fg : forall s, s <> [] ->
-  replace1 13 [92; 114]
-    (patch_last (if contains3 s then rep3 (replace1 92 [92; 92] s) else replace1 92 [92; 92] s)) = Fg ee None s.
+Theorem ttl_long_body_is_Fq : forall s,
+  let e1 := patch_last (replace1 92 [92; 92] s) in
+  replace1 13 [92; 114] (if contains3 e1 then rep3 e1 else e1) = Fq ee s.
 Proof.
-  intros s Hne. change (replace1 92 [92; 92] s) with (DD s). rewrite stage2_is_G.
-  change (patch_last (G s)) with (patch_last ([] ++ G s)).
-  rewrite (patch_G s [] None Hne eq_refl). cbn [app]. apply R13_Fg.
+  intros s e1. subst e1. change (replace1 92 [92; 92] s) with (DD s).
+  rewrite stage3_is_rep3, patch_DD, rep3_H. apply R13_Fq.
 Qed.
 
-(* ------------------------------------------------------------ claim 2: the reader inverts the one-pass function *)
+(* ------------------------------------------------------------ the reader inverts the one-pass function *)
 Definition no_quote_head (z : str) : bool := match z with c :: _ => negb (c =? 34) | [] => true end.
 
 Lemma strconst_end : forall z, no_quote_head z = true -> strconst true (QQQ ++ z) = Some ([], z).
-Proof.
-  intros [|c z] H.
-  - reflexivity.
-  - simpl in H. apply negb_true_iff in H. unfold QQQ. cbn [app strconst strip_prefix].
-    rewrite !N.eqb_refl. cbn [negb]. rewrite (N.eqb_sym 34 c), H. reflexivity.
-Qed.
-
-Lemma strconst_end4 : forall z, no_quote_head z = true -> strconst true (34 :: QQQ ++ z) = Some ([34], z).
 Proof.
   intros [|c z] H.
   - reflexivity.
@@ -317,20 +267,24 @@ Qed.
 Lemma ee_head : forall a, (a =? 34) = false -> exists c q, ee a = c :: q /\ (c =? 34) = false.
 Proof. intros a H. unfold ee. destruct (a =? 92); [eauto|]. destruct (a =? 13); eauto. Qed.
 
+Lemma Fq_head_nq : forall b t K, (b =? 34) = false -> exists c q, Fq ee (b :: t) ++ K = c :: q /\ (c =? 34) = false.
+Proof.
+  intros b t K Hb. rewrite Fq_nq by exact Hb. destruct (ee_head b Hb) as (c & q & -> & Hc). cbn [app]. eauto.
+Qed.
 
 (* after a raw quote the reader never sees two more quotes *)
-Lemma Fg_after_raw : forall t K, t <> [] -> starts2 t = false -> starts2 (Fg ee (Some 34) t ++ K) = false.
+Lemma Fq_after_raw : forall t K, t <> [] -> triple3 t = false -> starts2 (Fq ee t ++ K) = false.
 Proof.
-  intros [|b t'] K Hne Hs; [congruence|].
+  intros [|b t'] K Hne Ht; [congruence|].
   destruct (b =? 34) eqn:Hb.
-  - apply N.eqb_eq in Hb. subst b. destruct t' as [|c r].
-    + reflexivity.
-    + assert (Hc : (c =? 34) = false) by (simpl in Hs; exact Hs).
-      rewrite Fg_q by (try discriminate; now apply starts2_head).
-      rewrite Fg_nq by exact Hc. destruct (ee_head c Hc) as (x & q & -> & Hx).
-      cbn [app starts2]. now rewrite Hx.
-  - rewrite Fg_nq by exact Hb. destruct (ee_head b Hb) as (x & q & -> & Hx). cbn [app].
-    now apply starts2_head.
+  - apply N.eqb_eq in Hb. subst b. destruct t' as [|c r]; [reflexivity|].
+    destruct (c =? 34) eqn:Hc.
+    + apply N.eqb_eq in Hc. subst c. destruct r as [|x r']; [reflexivity|]. simpl in Ht. discriminate.
+    + assert (H3 : triple3 (c :: r) = false) by (destruct r as [|y [|w r2]]; cbn [triple3]; rewrite ?Hc; reflexivity).
+      rewrite Fq_q by (try discriminate; exact H3).
+      destruct (Fq_head_nq c r K Hc) as (x & q & Hq & Hx). cbn [app]. rewrite Hq. cbn [starts2].
+      now rewrite Hx, andb_false_r.
+  - destruct (Fq_head_nq b t' K Hb) as (x & q & -> & Hx). now apply starts2_head.
 Qed.
 
 Lemma strconst_ee : forall a R, (a =? 34) = false ->
@@ -343,26 +297,22 @@ Proof.
   apply N.eqb_neq in N92, N13, N10. cbn [app]. now rewrite strconst_plain.
 Qed.
 
-Theorem strconst_Fg : forall s prev z, no_quote_head z = true ->
-  strconst true (Fg ee prev s ++ QQQ ++ z) = Some (s, z).
+Theorem strconst_Fq : forall s z, no_quote_head z = true ->
+  strconst true (Fq ee s ++ QQQ ++ z) = Some (s, z).
 Proof.
-  intros s. pattern s. apply str_ind3. clear s. intros s IH prev z Hz. destruct s as [|a t].
-  - cbn [Fg app]. now apply strconst_end.
+  intros s. pattern s. apply str_ind3. clear s. intros s IH z Hz. destruct s as [|a t].
+  - cbn [Fq app]. now apply strconst_end.
   - destruct (a =? 34) eqn:Ha.
     + apply N.eqb_eq in Ha. subst a. destruct t as [|b t'].
-      * rewrite Fg_qlast. unfold last_q.
-        assert (H4 : strconst true ([34] ++ QQQ ++ z) = Some ([34], z)) by (cbn [app]; now apply strconst_end4).
-        assert (HE : strconst true ([92; 34] ++ QQQ ++ z) = Some ([34], z)).
-        { cbn [app]. rewrite (strconst_esc true 34 34) by reflexivity. now rewrite strconst_end. }
-        destruct prev as [p|]; [destruct (p =? 92)|]; assumption.
-      * destruct (starts2 (b :: t')) eqn:Hs.
-        -- destruct (starts2_true _ Hs) as (r & Hr). rewrite Hr, Fg_q3. unfold ESC3. rewrite <- app_assoc. cbn [app].
+      * rewrite Fq_qlast. cbn [app]. rewrite (strconst_esc true 34 34) by reflexivity. now rewrite strconst_end.
+      * destruct (triple3 (b :: t')) eqn:Ht.
+        -- destruct (triple3_true _ Ht) as (x & r & Hr). rewrite Hr, Fq_q3. unfold ESC3. rewrite <- app_assoc. cbn [app].
            rewrite !(strconst_esc true 34 34) by reflexivity.
            rewrite IH by (try exact Hz; rewrite Hr; cbn [length]; lia). reflexivity.
-        -- rewrite Fg_q by (try exact Hs; discriminate). cbn [app].
-           rewrite strconst_raw_quote by (apply Fg_after_raw; [discriminate|exact Hs]).
+        -- rewrite Fq_q by (try exact Ht; discriminate). cbn [app].
+           rewrite strconst_raw_quote by (apply Fq_after_raw; [discriminate|exact Ht]).
            rewrite IH by (try exact Hz; cbn [length]; lia). reflexivity.
-    + rewrite Fg_nq by exact Ha. rewrite <- app_assoc. rewrite strconst_ee by exact Ha.
+    + rewrite Fq_nq by exact Ha. rewrite <- app_assoc. rewrite strconst_ee by exact Ha.
       rewrite IH by (try exact Hz; cbn [length]; lia). reflexivity.
 Qed.
 
@@ -370,10 +320,9 @@ Qed.
 Theorem ttl_long_roundtrip : forall s, mem 10 s = true -> ttl_read (ttl_quote_encode s) = Some s.
 Proof.
   intros s Hnl. unfold ttl_quote_encode. rewrite Hnl.
-  assert (Hne : s <> []) by (intros ->; discriminate).
-  cbv zeta. rewrite (ttl_long_body_is_Fg s Hne).
+  rewrite (ttl_long_body_is_Fq s).
   unfold ttl_read. cbn [app strip_prefix]. rewrite !N.eqb_refl.
-  change [34; 34; 34] with (QQQ ++ []). rewrite strconst_Fg by reflexivity. reflexivity.
+  change [34; 34; 34] with (QQQ ++ []). rewrite strconst_Fq by reflexivity. reflexivity.
 Qed.
 
 Theorem ttl_roundtrip : forall s, ttl_read (ttl_quote_encode s) = Some s.
@@ -388,10 +337,9 @@ Theorem ttl_long_roundtrip_in_context : forall s z, mem 10 s = true -> no_quote_
   forall body, strip_prefix [34; 34; 34] (ttl_quote_encode s ++ z) = Some body -> strconst true body = Some (s, z).
 Proof.
   intros s z Hnl Hz. unfold ttl_quote_encode. rewrite Hnl.
-  assert (Hne : s <> []) by (intros ->; discriminate).
-  cbv zeta. rewrite (ttl_long_body_is_Fg s Hne). cbn [app strip_prefix]. rewrite !N.eqb_refl.
-  split; [discriminate|]. intros body H. inversion H; subst. rewrite <- !app_assoc.
-  change ([34; 34; 34] ++ z) with (QQQ ++ z). now apply strconst_Fg.
+  rewrite (ttl_long_body_is_Fq s). cbn [app strip_prefix]. rewrite !N.eqb_refl.
+  split; [discriminate|]. intros body Hb. inversion Hb; subst. rewrite <- !app_assoc.
+  change ([34; 34; 34] ++ z) with (QQQ ++ z). now apply strconst_Fq.
 Qed.
 
 Theorem ttl_spec_model : forall c, ttl_spec c (ttl_model c) = true.
